@@ -43,13 +43,16 @@ CLAIMED = {
     ),
     "C13": (
         "7/C13",
-        "Cuts.tla",
+        "Cuts.tla, ScorerSizes.tla",
         "TLC checks on the Check;Kernel model (Python indexing semantics: negative index wraps, slice "
         "truncates, index beyond the array raises) that no accepted cut wraps or truncates, that no "
         "IndexError escapes and that Check rejects exactly the complement of the admissible set, for "
         "every tuple of the box; TLC then emits the admitted set per (n, kind, min_size) and the harness "
         "feeds every tuple of the box and the malformed shapes to all 17 scorer classes/compositions: "
-        "ValueError iff rejected by the spec, accepted cuts must score as the same rows do in isolation.",
+        "ValueError iff rejected by the spec, accepted cuts must score as the same rows do in isolation; half of the "
+        "scorer objects have been fitted and used on data of another width before.  ScorerSizes.tla: histories of "
+        "Fit(p) / min_size / Probe / get_param_size(q) on one object of each of 14 scorer kinds, executed on real "
+        "objects: the smallest interval length evaluate accepts must be the minimum size of the LAST fit.",
         "Exhaustive over the box [-2,n+2]^k (quick) / [-3,n+3]^k (thorough) for n in 3..5/6 only; one "
         "lattice data set per n in general position; the value oracle is metamorphic (same rows scored "
         "alone), the definitional value itself is C01/C06's job.",
@@ -136,7 +139,7 @@ CLAIMED = {
     ),
     "C01": (
         "7/C01",
-        "CostsDefs.tla, Costs.tla, Trace_Costs.tla",
+        "CostsDefs.tla, Costs.tla, Trace_Costs.tla, CostParams.tla",
         "TLC checks on the fitted-state model of the costs (zero-first-row prefix arrays, stored data, "
         "prefix and slice kernels, histories of evaluate calls with batches) that the kernels' differences "
         "of prefix rows equal the direct sums over the rows of the slice, that evaluate never changes the "
@@ -146,7 +149,10 @@ CLAIMED = {
         "per-column parameters, PD covariances) is evaluated in several batch orders and compared with the "
         "closed form of the property applied to those statistics (exactly singular slices: RuntimeError or "
         "finite); larger lattice data are validated by TLC (Trace_Costs: exact rationals, recovered "
-        "variance / determinant).",
+        "variance / determinant).  CostParams.tla: the fixed-parameter domain (shape of mean, variance, covariance; "
+        "positive definiteness by Sylvester's criterion) as a state machine over 216 grid points, each passed to the "
+        "real class in four spellings on float and int64 data; accepted parameters must give the definition's value "
+        "for the specification's per-column parameter.",
         "math.log is applied on the specification side to TLC's exact arguments (trusted); exhaustive for "
         "n<=5/6 with entries -1..2; prefix-sum rounding on data of large dynamic range and the numba builds "
         "of the kernels are outside this check.",
@@ -173,8 +179,10 @@ CLAIMED = {
         "label; statistic thresholded with strict comparisons; one interval per flagged group) against the "
         "set of segments whose exact rational statistic lies strictly outside the bounds, for every integer "
         "series, changepoint set, statistic (sum, mean, min, max, median, a user count statistic) and pair of "
-        "bounds within the constants, and that the user's detector object is never fitted; every case is "
-        "replayed around a user-defined stub detector for four input representations, and runs around PELT, "
+        "bounds within the constants, and that the user's detector object is never fitted; in a second round the "
+        "user reconfigures their detector object and fits the anomaliser again (every pair of changepoint sets): the "
+        "answer must follow the detector as configured now; every case is "
+        "replayed around a user-defined stub detector for six input representations, and runs around PELT, "
         "MovingWindow and SeededBinarySegmentation are validated by TLC against the segmentation of a fresh "
         "clone of the same detector.",
         "Integer data (so that comparisons of mean/median with the bounds are exact); exhaustive for n<=4 "
@@ -184,9 +192,11 @@ CLAIMED = {
     "C10": (
         "7/C10",
         "Lifecycle.tla, UpdateMergeDefs.tla, UpdateMerge.tla, Trace_UpdateMerge.tla",
-        "TLC explores every history up to the length bound of set_params / clone / fit / update / predict / "
-        "transform / transform_scores calls on two detector slots and fit / evaluate calls on their scorer "
-        "objects over four datasets (different n and p, overlapping and disjoint index), with the scorer "
+        "TLC explores every history up to the length bound of set_params / reset / clone / deepcopy / pickle round "
+        "trip / fit / update / predict / transform / transform_scores / fit_predict / fit_transform / update_predict "
+        "calls on two detector slots and fit / evaluate calls on their scorer "
+        "objects over four datasets (different n and p, partially overlapping index, and two datasets with EXACTLY "
+        "the same index and shape but other values), with the scorer "
         "object shared (aliased) or private and fit tuning on none / one / both detectors, modelling each "
         "method by its reads and writes of the hidden state (public scores attribute, scorer refitted in "
         "place, fitted attributes) and checks that every returned value is the term of (hyper-parameters, "
@@ -208,7 +218,7 @@ CLAIMED = {
         "7/C11",
         "Representations.tla",
         "TLC enumerates the full product detector x entry point x container x dtype x index kind x column "
-        "labels x p x {integer, half-integer values} (2775 admissible grid points) and checks on the model of "
+        "labels x p x {integer, half-integer values} (3675 admissible grid points; dtypes float64, int64, int32, int16, int8, the integer ones also at magnitudes whose squares leave the dtype) and checks on the model of "
         "the entry-point conversions that the values the algorithm sees are the abstract matrix and that "
         "dense outputs carry the input's own index (negative configurations: look-up by index label, integer "
         "cast); every grid point is replayed with two parameter sets per detector against the canonical "
@@ -228,7 +238,9 @@ CLAIMED = {
         "MustRaise and the row map defined by the segment / covering anomalies, for every argument set within "
         "the constants; every case is replayed (ValueError iff inconsistent; out = a + b*z with z the "
         "generator's own standard-normal output for the same seed; determinism, seed sensitivity, shape, index, "
-        "columns; array and scalar parameters); alternating data over a grid; outlier rows for all 1<=k<=n<=40 "
+        "columns; array and scalar parameters; two parameter profiles: all different from the identity map, and "
+        "means 0 / standard deviations 1 in some items and columns only); alternating data over a grid incl. mean 0 "
+        "and variance 1; outlier rows for all 1<=k<=n<=40 "
         "are validated by TLC against OutlierAdmits (evenly spaced first to last, integer truncation).",
         "Exhaustive for n<=4..6, up to 2..3 positions in -1..n+1, p<=3; changepoints equal to 0, duplicated "
         "or unsorted and n_outliers>n are not judged (the statement does not define them); an exact integer "
@@ -264,7 +276,9 @@ CLAIMED = {
         "(seven detectors, each hyper-parameter below / at / above its bound incl. min_segment_length = 1, "
         "bandwidth = 1, max_interval_length = 2*min_segment_length, both CAPA scales, data length "
         "MinLen-1..MinLen+2 and MinLen+25, NaN, p in 1..3) is constructed, fitted and predicted and must end "
-        "in the expected outcome class; every OK output is validated by TLC with C04's predicate.",
+        "in the expected outcome class; every OK output is validated by TLC with C04's predicate; the non-empty "
+        "search range is also OBSERVED on the code (the fitted detector re-run on strictly convex data must score at "
+        "least one candidate; Config.SearchCount).",
         "Quick runs 3 of 16 slices of the grid, thorough all; min_detection_interval stays at its default "
         "(docstring and constructor disagree about its range); 'ValueError from a too coarse scorer' is a "
         "permitted, not a required outcome; one lattice data set per grid point.",
